@@ -44,9 +44,7 @@ def run(run, h):
 
 def honest_case(run, h, pts, batch, rng, M, cid, cb, mb, ctx):
     pk = M.pk
-    tape = [rand_scalar(rng, 0.1) for _ in range(12)]
-    if tape[0] == CLOSE:
-        tape[0] = 5
+    tape = distinct_scalars(rng, 12, 0.1, avoid=(CLOSE,))
     h.begin()
     e = establish_request(h, M, cid, cb, mb, ctx, tape)
     u1, u2 = rng.choice([rand_nz(rng), 1]), rand_nz(rng)
